@@ -1343,6 +1343,10 @@ void coefficient_add(const lp_polynomial_context_t* ctx, coefficient_t* S, const
     if (C1->type == COEFFICIENT_NUMERIC) {
       assert(C2->type == COEFFICIENT_NUMERIC);
       // Add the integers
+      if (S->type == COEFFICIENT_POLYNOMIAL) {
+        coefficient_destruct(S);
+        coefficient_construct(ctx, S);
+      }
       integer_add(ctx->K, &S->value.num, &C1->value.num, &C2->value.num);
     } else {
       assert(C1->type == COEFFICIENT_POLYNOMIAL);
@@ -1457,6 +1461,10 @@ void coefficient_sub(const lp_polynomial_context_t* ctx, coefficient_t* S, const
     if (C1->type == COEFFICIENT_NUMERIC) {
       assert(C2->type == COEFFICIENT_NUMERIC);
       // Subtract the integers
+      if (S->type == COEFFICIENT_POLYNOMIAL) {
+        coefficient_destruct(S);
+        coefficient_construct(ctx, S);
+      }
       integer_sub(ctx->K, &S->value.num, &C1->value.num, &C2->value.num);
     } else {
       assert(C1->type == COEFFICIENT_POLYNOMIAL);
@@ -1526,6 +1534,10 @@ void coefficient_mul(const lp_polynomial_context_t* ctx, coefficient_t* P, const
     if (C1->type == COEFFICIENT_NUMERIC) {
       assert(C2->type == COEFFICIENT_NUMERIC);
       // Multiply the integers
+      if (P->type == COEFFICIENT_POLYNOMIAL) {
+        coefficient_destruct(P);
+        coefficient_construct(ctx, P);
+      }
       integer_mul(ctx->K, &P->value.num, &C1->value.num, &C2->value.num);
     } else {
       assert(C1->type == COEFFICIENT_POLYNOMIAL);
